@@ -73,7 +73,6 @@ func (c *ExecCtx) evalCall(st *State, call *ast.CallExpr) []Val {
 			fn, _ = c.info.Uses[f.Sel].(*types.Func)
 		}
 	}
-	_ = recvExpr
 	if fn == nil {
 		fv := c.eval(st, fun)
 		return c.dynamicCall(st, fv, call)
@@ -106,6 +105,12 @@ func (c *ExecCtx) evalCall(st *State, call *ast.CallExpr) []Val {
 	args := c.evalArgs(st, call, sig, nil)
 	c.runBeforeCallAnchors(st, fn, call, recv, args)
 	res := c.dispatch(st, fn, recv, args, call.Pos(), call)
+	// context contract: once Done() has delivered, Err() is non-nil
+	if fn.FullName() == "(context.Context).Err" && recvExpr != nil && len(res) == 1 {
+		if st.tags["recv:"+exprString(recvExpr)+".Done()"] {
+			st.assumeT(Ne(res[0].T, IntLit(0)))
+		}
+	}
 	c.callArgs, c.callRecv = args, recv
 	c.runCallAnchors(st, fn, call, res)
 	c.callArgs, c.callRecv = nil, nil
@@ -1066,6 +1071,7 @@ func (c *ExecCtx) runBodyInline(st *State, body *ast.BlockStmt, sig *types.Signa
 	u := c.u
 	base := len(st.assume)
 	savedDefers := st.defers
+	savedResults := st.results
 	start := st.fork()
 	start.defers = nil
 	outs := c.execBlock([]*State{start}, body.List)
@@ -1108,7 +1114,7 @@ func (c *ExecCtx) runBodyInline(st *State, body *ast.BlockStmt, sig *types.Signa
 			}
 		}
 		f.defers = savedDefers
-		f.results = nil
+		f.results = savedResults
 		live = append(live, f)
 	}
 	if len(live) == 0 {
